@@ -3,11 +3,11 @@ import Rio.Props.C13
 /-!
 # C13 over a target that has content
 
-For a **content-addressed** target the property holds in full, by an invariant of the store (every object scans to
-the id of its address): after a successful mirror the target alone serves W, and mirroring again is a no-op that needs
-no source.  For a **single-address** (`file://`) target the same is proved under the hypothesis the code silently
-relies on — the address is empty or already holds W — and `C13_counter_mono` shows the hypothesis cannot be dropped
-(the known finding `mirror-noop-other-ware`, exhibited on the implementation by the `mirror` stream).
+For a **content-addressed** target the property holds by an invariant of the store (every object scans to the id of its
+address): after a successful mirror the target alone serves W, and mirroring again is a no-op that needs no source.
+For a **single-address** (`file://`) target it holds with no hypothesis at all since the `fix:` that makes the first
+probe read such an object through (`Target.holds`): `C13_mono_serves`.  Before, any object at the address counted as W
+(the former known finding `mirror-noop-other-ware`); `C13_mono_other_ware` is what the same witness does now.
 -/
 namespace Rio
 
@@ -33,7 +33,7 @@ theorem C13_ca_inv (H : Bytes → Bytes) (req : Bytes) (t : Target) (hk : t.kind
     (src : Stored) (commitOk : Bool) (h : CAInv H t) :
     CAInv H (mirrorStore H req t writerOk pick src commitOk).2 := by
   unfold mirrorStore applyMirror
-  cases hr : (mirror H req (t.lookup req).isSome writerOk pick src.hdrs src.fin src.head commitOk).1 with
+  cases hr : (mirror H req (t.holds H req) writerOk pick src.hdrs src.fin src.head commitOk).1 with
   | err c => exact h
   | panic w => exact h
   | ok u =>
@@ -53,18 +53,29 @@ theorem C13_ca_inv (H : Bytes → Bytes) (req : Bytes) (t : Target) (hk : t.kind
 
 theorem mirrorStore_ok (H : Bytes → Bytes) (req : Bytes) (t : Target) (writerOk : Bool) (pick : PickRes) (src : Stored)
     (commitOk : Bool) (hok : (mirrorStore H req t writerOk pick src commitOk).1 = .ok ()) :
-    (mirror H req (t.lookup req).isSome writerOk pick src.hdrs src.fin src.head commitOk).1 = .ok () := by
+    (mirror H req (t.holds H req) writerOk pick src.hdrs src.fin src.head commitOk).1 = .ok () := by
   unfold mirrorStore applyMirror at hok
-  cases hr : (mirror H req (t.lookup req).isSome writerOk pick src.hdrs src.fin src.head commitOk).1 with
+  cases hr : (mirror H req (t.holds H req) writerOk pick src.hdrs src.fin src.head commitOk).1 with
   | err c => rw [hr] at hok; simp at hok
   | panic w => rw [hr] at hok; simp at hok
   | ok u => cases u; rfl
 
-/-- after a successful mirror: either nothing was written and the object that was there is still there, or the
-    source's object — which scans to the requested id — is at the address -/
+theorem holds_true (H : Bytes → Bytes) (t : Target) (req : Bytes) (h : t.holds H req = true) :
+    ∃ s, t.lookup req = some s ∧ (t.kind = .ca ∨ scanId H s = .ok req) := by
+  unfold Target.holds at h
+  cases hl : t.lookup req with
+  | none => rw [hl] at h; simp at h
+  | some s =>
+    rw [hl] at h
+    simp only [Bool.or_eq_true, decide_eq_true_eq] at h
+    exact ⟨s, rfl, h⟩
+
+/-- after a successful mirror: either nothing was written and the object that was there — taken for W because the
+    address is content-addressed, or read through and found to be W — is still there, or the source's object — which
+    scans to the requested id — is at the address -/
 theorem mirrorStore_after (H : Bytes → Bytes) (req : Bytes) (t : Target) (writerOk : Bool) (pick : PickRes) (src : Stored)
     (commitOk : Bool) (hok : (mirrorStore H req t writerOk pick src commitOk).1 = .ok ()) :
-    ((∃ s, t.lookup req = some s) ∧ (mirrorStore H req t writerOk pick src commitOk).2 = t) ∨
+    ((∃ s, t.lookup req = some s ∧ (t.kind = .ca ∨ scanId H s = .ok req)) ∧ (mirrorStore H req t writerOk pick src commitOk).2 = t) ∨
     ((mirrorStore H req t writerOk pick src commitOk).2 = t.put req src ∧ scanId H src = .ok req) := by
   have hr := mirrorStore_ok H req t writerOk pick src commitOk hok
   unfold mirrorStore applyMirror
@@ -74,9 +85,7 @@ theorem mirrorStore_after (H : Bytes → Bytes) (req : Bytes) (t : Target) (writ
   · left
     rw [hev]
     simp only [List.mem_singleton, reduceCtorEq, if_false]
-    cases hl : t.lookup req with
-    | none => rw [hl] at hhas; simp at hhas
-    | some s => exact ⟨⟨s, rfl⟩, trivial⟩
+    exact ⟨holds_true H t req hhas, trivial⟩
   · right
     rw [if_pos hc]
     exact ⟨rfl, hs⟩
@@ -84,24 +93,35 @@ theorem mirrorStore_after (H : Bytes → Bytes) (req : Bytes) (t : Target) (writ
 theorem lookup_put (t : Target) (req : Bytes) (src : Stored) : (t.put req src).lookup req = some src := by
   simp [Target.lookup, Target.put, Target.addr]
 
-/-- **Single-address or content-addressed target, under the hypothesis the code relies on**: if the address is empty or
-    holds W, then after a successful mirror the target alone serves W. -/
-theorem C13_serves_partial (H : Bytes → Bytes) (req : Bytes) (t : Target) (writerOk : Bool)
+/-- **After a successful mirror the target alone serves W** — for a single-address target unconditionally; for a
+    content-addressed one under the store's invariant at that address (supplied by `CAInv` in `C13_ca_serves`). -/
+theorem C13_serves (H : Bytes → Bytes) (req : Bytes) (t : Target) (writerOk : Bool)
     (pick : PickRes) (src : Stored) (commitOk : Bool)
-    (hyp : ∀ s, t.lookup req = some s → scanId H s = .ok req)
+    (hyp : t.kind = .ca → ∀ s, t.lookup req = some s → scanId H s = .ok req)
     (hok : (mirrorStore H req t writerOk pick src commitOk).1 = .ok ()) :
     fetchAlone H (mirrorStore H req t writerOk pick src commitOk).2 req = .ok () := by
-  rcases mirrorStore_after H req t writerOk pick src commitOk hok with ⟨⟨s, hl⟩, ht⟩ | ⟨ht, hs⟩
+  rcases mirrorStore_after H req t writerOk pick src commitOk hok with ⟨⟨s, hl, hw⟩, ht⟩ | ⟨ht, hs⟩
   · rw [ht]
     unfold fetchAlone
     rw [hl]
     simp only
-    rw [hyp s hl]; simp
+    have : scanId H s = .ok req := by
+      rcases hw with hk | hsc
+      · exact hyp hk s hl
+      · exact hsc
+    rw [this]; simp
   · rw [ht]
     unfold fetchAlone
     rw [lookup_put]
     simp only
     rw [hs]; simp
+
+/-- **C13 for a single-address (`file://`) target, whatever it held before** (another ware, garbage, nothing). -/
+theorem C13_mono_serves (H : Bytes → Bytes) (req : Bytes) (t : Target) (hk : t.kind = .mono) (writerOk : Bool)
+    (pick : PickRes) (src : Stored) (commitOk : Bool)
+    (hok : (mirrorStore H req t writerOk pick src commitOk).1 = .ok ()) :
+    fetchAlone H (mirrorStore H req t writerOk pick src commitOk).2 req = .ok () :=
+  C13_serves H req t writerOk pick src commitOk (fun h => by rw [hk] at h; cases h) hok
 
 /-- **After a successful mirror the content-addressed target alone serves W** — no hypothesis on what the address held:
     the store invariant supplies it. -/
@@ -109,15 +129,15 @@ theorem C13_ca_serves (H : Bytes → Bytes) (req : Bytes) (t : Target) (hk : t.k
     (pick : PickRes) (src : Stored) (commitOk : Bool) (h : CAInv H t)
     (hok : (mirrorStore H req t writerOk pick src commitOk).1 = .ok ()) :
     fetchAlone H (mirrorStore H req t writerOk pick src commitOk).2 req = .ok () := by
-  apply C13_serves_partial H req t writerOk pick src commitOk _ hok
-  intro s hl
+  apply C13_serves H req t writerOk pick src commitOk _ hok
+  intro _ s hl
   apply h req s
   simpa [Target.lookup, Target.addr, hk] using hl
 
-/-- **Mirroring again is a no-op that needs no source** (any target kind): once the address holds an object, mirror
-    succeeds whatever the sources answer, opens no writer and leaves the target as it is. -/
+/-- **Mirroring again is a no-op that needs no source** (any target kind): once the target holds W (`Target.holds`),
+    mirror succeeds whatever the sources answer, opens no writer and leaves the target as it is. -/
 theorem C13_again_noop (H : Bytes → Bytes) (req : Bytes) (t : Target) (writerOk : Bool) (pick : PickRes) (src : Stored)
-    (commitOk : Bool) (hhas : (t.lookup req).isSome = true) :
+    (commitOk : Bool) (hhas : t.holds H req = true) :
     mirrorStore H req t writerOk pick src commitOk = (.ok (), t) := by
   unfold mirrorStore applyMirror
   rw [hhas]
@@ -131,6 +151,23 @@ theorem C13_again_noop (H : Bytes → Bytes) (req : Bytes) (t : Target) (writerO
     rw [h.1]
     simp
 
+/-- after a successful mirror the target holds W in the sense of the probe: the next mirror is the no-op above -/
+theorem C13_then_holds (H : Bytes → Bytes) (req : Bytes) (t : Target) (writerOk : Bool)
+    (pick : PickRes) (src : Stored) (commitOk : Bool)
+    (hok : (mirrorStore H req t writerOk pick src commitOk).1 = .ok ()) :
+    (mirrorStore H req t writerOk pick src commitOk).2.holds H req = true := by
+  rcases mirrorStore_after H req t writerOk pick src commitOk hok with ⟨⟨s, hl, hw⟩, ht⟩ | ⟨ht, hs⟩
+  · rw [ht]
+    unfold Target.holds
+    rw [hl]
+    rcases hw with hk | hsc
+    · simp [hk]
+    · simp [hsc]
+  · rw [ht]
+    unfold Target.holds
+    rw [lookup_put]
+    simp [hs]
+
 /-! ### Witnesses (identity "hash": the id is the pre-image itself) -/
 
 def exHdr (name : Bytes) (tf : UInt8) (ch : Bytes) : TarHdr :=
@@ -143,15 +180,22 @@ def exIdOf (s : Stored) : Bytes := match scanId (fun b => b) s with | .ok i => i
 def exMonoHoldingA : Target := ⟨.mono, fun a => if a = [] then some exWareA else none⟩
 def exCaEmpty : Target := ⟨.ca, fun _ => none⟩
 
-/-- **The hypothesis of `C13_serves_partial` cannot be dropped for a single-address target** (known finding
-    `mirror-noop-other-ware`): the `file://` address holds ware A; a mirror of B ≠ A into it — with no source at all —
-    answers success, and the target alone then refuses B with a hash mismatch (it still serves A). -/
-theorem C13_counter_mono :
+/-- **The former counter-example** (`mirror-noop-other-ware`): the `file://` address holds ware A. A mirror of B ≠ A into
+    it with no source at all is no longer a success — it answers ware-not-found and leaves A in place; with a source that
+    serves B it succeeds, and the target alone then serves B. -/
+theorem C13_mono_other_ware :
     scanId (fun b => b) exWareA = .ok (exIdOf exWareA) ∧ scanId (fun b => b) exWareB = .ok (exIdOf exWareB) ∧
     exIdOf exWareA ≠ exIdOf exWareB ∧
-    (mirrorStore (fun b => b) (exIdOf exWareB) exMonoHoldingA true (.err .wareNotFound) exWareB true).1 = .ok () ∧
-    fetchAlone (fun b => b) (mirrorStore (fun b => b) (exIdOf exWareB) exMonoHoldingA true (.err .wareNotFound) exWareB true).2
-      (exIdOf exWareB) = .err .hashMismatch := by decide
+    mirrorStore (fun b => b) (exIdOf exWareB) exMonoHoldingA true (.err .wareNotFound) exWareB true
+      = (.err .wareNotFound, exMonoHoldingA) ∧
+    (mirrorStore (fun b => b) (exIdOf exWareB) exMonoHoldingA true (.opened 0) exWareB true).1 = .ok () ∧
+    fetchAlone (fun b => b) (mirrorStore (fun b => b) (exIdOf exWareB) exMonoHoldingA true (.opened 0) exWareB true).2
+      (exIdOf exWareB) = .ok () := by
+  refine ⟨by decide, by decide, by decide, ?_, by decide, by decide⟩
+  unfold mirrorStore applyMirror
+  have : exMonoHoldingA.holds (fun b => b) (exIdOf exWareB) = false := by decide
+  rw [this]
+  rfl
 
 /-- non-vacuity of `C13_ca_serves`: an empty content-addressed target satisfies the invariant, a mirror of B from a source
     that serves B succeeds, and the target then serves B; mirroring again needs no source -/
